@@ -204,6 +204,15 @@ func (i *coaInst) Apply(ev core.Event) map[string]any {
 	if err != nil {
 		panic("coa harness: bad hex in event")
 	}
+	var priors []string
+	switch pv := ev["prior"].(type) {
+	case []string:
+		priors = pv
+	case []any:
+		for _, x := range pv {
+			priors = append(priors, fmt.Sprint(x))
+		}
+	}
 	d := classify(b, i.s.secret)
 	res := map[string]any{
 		"len": d.Len, "declared": d.Declared, "code": d.Code, "id": d.ID, "authOK": d.AuthOK, "attrsWF": d.AttrsWF, "class": d.class(),
@@ -216,8 +225,12 @@ func (i *coaInst) Apply(ev core.Event) map[string]any {
 	i.ensure()
 	// logged and flushed before delivery: a dead child is attributed to the last line
 	p.seq++
-	fmt.Fprintf(p.log, "%d %s %s %s\n", p.seq, i.s.name, hex.EncodeToString(i.s.secret), hx)
-	r, died, note := p.call(childCmd{Cmd: "dgram", Hex: hx})
+	fmt.Fprintf(p.log, "%d %s %s %s", p.seq, i.s.name, hex.EncodeToString(i.s.secret), hx)
+	for _, ph := range priors {
+		fmt.Fprintf(p.log, " after:%s", ph)
+	}
+	fmt.Fprintln(p.log)
+	r, died, note := p.call(childCmd{Cmd: "dgram", Hex: hx, Prior: priors})
 	i.events++
 	if died {
 		p.Crashes++
@@ -236,6 +249,9 @@ func (i *coaInst) Apply(ev core.Event) map[string]any {
 		}
 	}
 	res["dead"] = r.Dead
+	if len(priors) > 0 {
+		res["prior_unanswered"] = r.PriorUnanswered
+	}
 	res["hcalls"] = r.HCalls
 	res["effects"] = r.Effects
 	var resps []map[string]any
